@@ -73,6 +73,9 @@ class CoWorld:
     # ---- workspace set-up ------------------------------------------------------------
     def place_file(self, fp, c, lt):
         os.makedirs(os.path.dirname(fp), exist_ok=True)
+        if c == "dangling":  # a symbolic link whose cache object is gone
+            os.symlink(self.cache_path("0" * 32), fp)
+            return
         src = self.cache_path(OID[c])
         if os.path.exists(src):
             with open(src, "rb") as fh:
